@@ -428,7 +428,17 @@ pub fn run_random(
     let mut rng = Rng::new(rs);
     let kind = *rng.pick(KINDS);
     let small = !thorough || rng.chance(600);
-    let base = Lay::random(&mut rng, small);
+    let mut base = Lay::random(&mut rng, small);
+    // one history in forty (twenty in the thorough tier) moves megabytes; not for the composite keys, whose
+    // size at such dimensions exceeds the simulated heap cap
+    let composite = matches!(
+        kind,
+        "BlindRotationKey" | "BlindRotationKeyCompressed" | "CircuitBootstrappingKey" | "BDDKey" | "GLWETensorKey" | "GLWETensorKeyCompressed" | "GGLWEToGGSWKey" | "GGLWEToGGSWKeyCompressed"
+    );
+    if rng.chance(if thorough { 50 } else { 25 }) && !composite {
+        base = Lay::large(&mut rng);
+        stats.bump("config.large_object");
+    }
     let nobj = rng.range(1, 3) as usize;
     let mut objs = vec![base.clone()];
     for _ in 1..nobj {
